@@ -96,6 +96,28 @@ func c07Try(r *core.Rec, coder rsec16.Coder, kind string, d, p int, orig, parity
 			}
 		}
 	}
+	if err != nil {
+		// a failed call followed by a retry on the SAME data slice with every parity shard available (a caller that
+		// waits for more parity to arrive): a nil error must still mean exact originals
+		retry := make([][]byte, p)
+		for i := range retry {
+			retry[i] = append([]byte{}, parity[i]...)
+		}
+		var err2 error
+		if pi := core.Catch(func() { err2 = coder.ReconstructData(data, retry) }); pi != nil {
+			r.Violatef("reconstruct-panic:"+pi.Frame, "retry after error, %s d=%d p=%d: %s", kind, d, p, pi.Value)
+			return
+		}
+		r.AddTransitions(1)
+		if err2 == nil {
+			for i := 0; i < d; i++ {
+				if !bytes.Equal(data[i], orig[i]) {
+					r.Violatef("retry-after-error-nil-but-wrong", "%s d=%d p=%d missing data %v, available parity %v: first call returned %v; the retry with all parity shards returned nil but shard %d differs from the original", kind, d, p, missCols, avail, err, i)
+					return
+				}
+			}
+		}
+	}
 	if nMissD > len(avail) {
 		if _, ok := err.(rsec16.NotEnoughParityShardsError); !ok {
 			r.Violatef("not-enough-parity-not-reported", "%s: expected NotEnoughParityShardsError, got %v", what, err)
